@@ -20,7 +20,7 @@ class _Lazy(dict):
 
     def get(self, prop, default=None):
         s = _standins()
-        table = {'C06': [s.c06_roundtrip]}
+        table = {'C06': [s.c06_roundtrip], 'C17': [s.c17_parallel_map]}
         return table.get(prop, default if default is not None else [])
 
 
@@ -30,7 +30,7 @@ EXTRA_CHECKS = _Lazy()
 class _LazyReplay(dict):
     def __getitem__(self, name):
         s = _standins()
-        return {'c06_roundtrip': s.replay_c06}[name]
+        return {'c06_roundtrip': s.replay_c06, 'c17_parallel_map': s.replay_c17}[name]
 
 
 EXTRA_REPLAY = _LazyReplay()
